@@ -395,9 +395,19 @@ def _tail_returns_only(stmts):
                 return False
         elif isinstance(s, (ast.FunctionDef, ast.AsyncFunctionDef, ast.ClassDef)):
             continue
+        elif isinstance(s, ast.Try) and last and not any(_has_return(f) for f in s.finalbody):
+            # try: ...; return E  except X: <raise / return D>: the value is produced inside the try statement either way
+            if not _tail_returns_only(s.body) or not _tail_returns_only(s.orelse) or any(not _tail_returns_only(h.body) for h in s.handlers):
+                return False
+            if s.orelse and _has_return_list(s.body):
+                return False
         elif _has_return(s):
             return False
     return True
+
+
+def _has_return_list(stmts):
+    return any(_has_return(s) for s in stmts)
 
 
 def _has_return(node):
@@ -447,6 +457,8 @@ def _always_exits(body):
         return True
     if isinstance(last, ast.If):
         return _always_exits(last.body) and _always_exits(last.orelse)
+    if isinstance(last, ast.Try) and not last.finalbody:
+        return (_always_exits(last.orelse) if last.orelse else _always_exits(last.body)) and all(_always_exits(h.body) for h in last.handlers)
     return False
 
 
@@ -459,6 +471,12 @@ def _replace_returns(stmts, make):
         elif isinstance(s, ast.If):
             s.body = _replace_returns(s.body, make) or [ast.copy_location(ast.Pass(), s)]
             s.orelse = _replace_returns(s.orelse, make)
+            out.append(s)
+        elif isinstance(s, ast.Try) and s is stmts[-1]:
+            s.body = _replace_returns(s.body, make) or [ast.copy_location(ast.Pass(), s)]
+            s.orelse = _replace_returns(s.orelse, make)
+            for h in s.handlers:
+                h.body = _replace_returns(h.body, make) or [ast.copy_location(ast.Pass(), h)]
             out.append(s)
         else:
             out.append(s)
@@ -1401,6 +1419,28 @@ def explain_vars(fn):
                 if not (isinstance(s, ast.Assign) and len(s.targets) == 1 and isinstance(s.targets[0], ast.Name)):
                     continue
                 v = s.targets[0].id
+                if isinstance(s.value, ast.Name) and v in nested_names and v not in params and len(stores.get(v, [])) == 1 and s.value.id != v:
+                    # a second name for a variable that is itself bound once: the two are interchangeable everywhere, also inside
+                    # comprehensions and local functions
+                    b = s.value.id
+                    everywhere = [x for x in ast.walk(fn) if isinstance(x, ast.Name) and x.id in (v, b)]
+                    argnames = [x.arg for x in ast.walk(fn) if isinstance(x, ast.arg)]
+                    own = {a.arg for a in fn.args.posonlyargs + fn.args.args + fn.args.kwonlyargs}
+                    decl = any(isinstance(x, (ast.Global, ast.Nonlocal)) and (v in x.names or b in x.names) for x in ast.walk(fn))
+                    b_stores = sum(1 for x in everywhere if x.id == b and isinstance(x.ctx, (ast.Store, ast.Del)))
+                    v_stores = sum(1 for x in everywhere if x.id == v and isinstance(x.ctx, (ast.Store, ast.Del)))
+                    b_ok = (b in own and b_stores == 0 and argnames.count(b) == 1) or (b not in argnames and b_stores == 1 and (b in stores))
+                    v_loads = [x for x in everywhere if x.id == v and isinstance(x.ctx, ast.Load)]
+                    rest_ = lst[i + 1:]
+                    if b_ok and not decl and v_stores == 1 and v not in argnames and v_loads and all(any(_contains(r, u) for r in rest_) for u in v_loads):
+                        for u in v_loads:
+                            _replace_node(fn, u, ast.copy_location(ast.Name(id=b, ctx=ast.Load()), u))
+                        lst.remove(s)
+                        if not lst:
+                            lst.append(ast.copy_location(ast.Pass(), s))
+                        changed = True
+                        break
+                    continue
                 if isinstance(s.value, ast.Constant) and v in nested_names and v not in params and len(stores.get(v, [])) == 1:
                     # a constant named once: its uses inside comprehensions / lambdas / local functions read the same constant
                     everywhere = [x for x in ast.walk(fn) if isinstance(x, ast.Name) and x.id == v]
@@ -1875,6 +1915,14 @@ def canon_flow_list(stmts, pattern=False, tail=True, loads=None):
     for s in stmts:
         if isinstance(s, (ast.If, ast.While)) and not pattern:
             s.test = _bool_simplify(s.test)
+        # x = A if c else x  ->  if c: x = A         x = x if c else B  ->  if not c: x = B
+        if not pattern and isinstance(s, ast.Assign) and len(s.targets) == 1 and isinstance(s.targets[0], ast.Name) and isinstance(s.value, ast.IfExp):
+            x, ie = s.targets[0].id, s.value
+            keep_else = isinstance(ie.orelse, ast.Name) and ie.orelse.id == x
+            keep_body = isinstance(ie.body, ast.Name) and ie.body.id == x
+            if keep_else != keep_body:
+                new = ast.If(test=ie.test if keep_else else _negate(ie.test), body=[ast.Assign(targets=s.targets, value=ie.body if keep_else else ie.orelse)], orelse=[])
+                s = ast.fix_missing_locations(ast.copy_location(new, s))
         for f in ("body", "orelse", "finalbody"):
             v = getattr(s, f, None)
             if isinstance(v, list) and v and isinstance(v[0], ast.stmt) and not isinstance(s, (ast.FunctionDef, ast.AsyncFunctionDef, ast.ClassDef)):
